@@ -5,6 +5,7 @@ only=$2
 for d in /verif/seeded/*/; do
   id=$(basename $d); prop=${id%-*}
   [ -n "$only" ] && [[ "$id" != $only* ]] && continue
+  [ -n "$ONLY_RE" ] && ! [[ "$id" =~ $ONLY_RE ]] && continue
   if ! grep -q "\"$prop\"" /verif/MANIFEST.json || ! python3 -c "
 import json,sys
 m=json.load(open('/verif/MANIFEST.json'))
